@@ -430,6 +430,16 @@ func (fsrv *FileServer) ServeHTTP(w http.ResponseWriter, r *http.Request, next c
 			continue
 		}
 		compressedFilename := filename + precompress.Suffix()
+		if fileHidden(compressedFilename, filesToHide) {
+			// pretend this sidecar doesn't exist
+			if c := fsrv.logger.Check(zapcore.DebugLevel, "hiding precompressed file"); c != nil {
+				c.Write(
+					zap.String("filename", compressedFilename),
+					zap.Strings("files_to_hide", filesToHide),
+				)
+			}
+			continue
+		}
 		compressedInfo, err := fs.Stat(fileSystem, compressedFilename)
 		if err != nil || compressedInfo.IsDir() {
 			if c := fsrv.logger.Check(zapcore.DebugLevel, "precompressed file not accessible"); c != nil {
